@@ -1,5 +1,82 @@
 import Sigc.Model
-import Sigc.Spec
-/-! property theorems for C12 (being written) -/
+import Sigc.Lemmas.Basic
+/-!
+# C12 — blocking suspends a slot without disconnecting it
+-/
 namespace Sigc.C12
+open Sigc.Model
+
+/-- `block()/unblock()` on a slot variable returns the previous state, sets the new one, and affects
+    only that slot: no other slot variable, no signal, no connection changes -/
+theorem blockS_returns_previous_only_that_slot (s s' : St) (r : String) (i : Nat) (b : Bool) (v : SlotVar)
+    (hv : aget s.S i = some v) (h : stepSimple s (.blockS i b) = some (s', r)) :
+    r = bstr v.slot.blocked ∧
+    aget s'.S i = some { v with slot := { v.slot with blocked := b } } ∧
+    (∀ k, k ≠ i → aget s'.S k = aget s.S k) ∧
+    s'.impls = s.impls ∧ s'.C = s.C ∧ s'.K = s.K := by
+  simp only [stepSimple, hv] at h
+  simp at h
+  obtain ⟨rfl, rfl⟩ := h
+  refine ⟨rfl, by simp, ?_, rfl, rfl, rfl⟩
+  intro k hk
+  exact aget_aset_other _ _ _ _ hk
+
+/-- blocking keeps the slot's representation (it stays connected / non-empty) -/
+theorem blockS_keeps_rep (s s' : St) (r : String) (i : Nat) (b : Bool) (v : SlotVar)
+    (hv : aget s.S i = some v) (h : stepSimple s (.blockS i b) = some (s', r)) :
+    ∃ v', aget s'.S i = some v' ∧ v'.slot.rep = v.slot.rep ∧ v'.slot.empty = v.slot.empty := by
+  obtain ⟨_, h2, _⟩ := blockS_returns_previous_only_that_slot s s' r i b v hv h
+  exact ⟨_, h2, rfl, rfl⟩
+
+/-- `signal.block(b)` sets the state of every slot in the list at that moment (and touches no other list) -/
+theorem blockG_sets_all_current (s s' : St) (r : String) (g im : Nat) (b : Bool) (h0 : Handle) (x : Impl)
+    (hg : aget s.G g = some h0) (hi : h0.impl = some im) (hx : aget s.impls im = some x)
+    (h : stepSimple s (.blockG g b) = some (s', r)) :
+    (∃ x', aget s'.impls im = some x' ∧ x'.cells.map (·.id) = x.cells.map (·.id) ∧
+           ∀ c ∈ x'.cells, c.slot.blocked = b) ∧
+    (∀ k, k ≠ im → aget s'.impls k = aget s.impls k) := by
+  simp only [stepSimple, hg, hi, hx] at h
+  simp at h
+  obtain ⟨rfl, rfl⟩ := h
+  constructor
+  · refine ⟨{ x with cells := x.cells.map (fun c => { c with slot := { c.slot with blocked := b } }) },
+            by simp [setImpl], ?_, ?_⟩
+    · simp [List.map_map, Function.comp_def]
+    · intro c hc
+      simp at hc
+      obtain ⟨c0, _, rfl⟩ := hc
+      rfl
+  · intro k hk
+    simp [setImpl]
+    exact aget_aset_other _ _ _ _ hk
+
+/-- `signal.blocked()` answers "all slots blocked", which is true for an empty list and for a signal
+    that never had a list -/
+theorem blockedG_vacuous (s : St) (g : Nat) (h0 : Handle) (hg : aget s.G g = some h0) (hi : h0.impl = none) :
+    stepSimple s (.blockedGq g) = some (s, "1") := by
+  simp [stepSimple, hg, hi]
+
+theorem blockedG_iff_all (s : St) (g im : Nat) (h0 : Handle) (x : Impl)
+    (hg : aget s.G g = some h0) (hi : h0.impl = some im) (hx : aget s.impls im = some x) :
+    stepSimple s (.blockedGq g) = some (s, bstr (x.cells.all (·.slot.blocked))) := by
+  simp [stepSimple, hg, hi, hx]
+
+/-- invoking a blocked slot through an emission loop step does nothing: the non-accumulating loop
+    skips a blocked cell (one unfolding of `emitLoop`) — for every functor, fuel and program -/
+theorem emitLoop_skips_blocked (f : Nat) (P : Prog) (s : St) (i cur m arg r : Nat) (im : Impl) (c : Cell)
+    (hne : cur ≠ m) (hi : aget s.impls i = some im) (hc : im.cells.find? (·.id = cur) = some c)
+    (hb : c.slot.blocked = true) (nxt : Nat) (hn : succId im.cells cur = some nxt) :
+    emitLoop (f+1) P s i cur m arg r = emitLoop f P s i nxt m arg r := by
+  rw [emitLoop]
+  simp only [hne, if_false, hi, hc]
+  cases hrep : c.slot.rep with
+  | none => simp [hi, hn]
+  | some rp =>
+    obtain ⟨call, fn⟩ := rp
+    cases call <;> cases fn <;> simp [hb, hi, hn]
+
+example : stepSimple { S := [(0, { isVoid := false, slot := { blocked := true, rep := none } })] } (.blockS 0 false)
+    = some ({ S := [(0, { isVoid := false, slot := { blocked := false, rep := none } })] }, "1") := by
+  simp [stepSimple, aget, aset, bstr]
+
 end Sigc.C12
